@@ -391,7 +391,7 @@ pub fn check(c: &Case, obs: &mut Obs) -> Result<(), String> {
 pub fn property() -> Property {
     Property {
         id: "C16",
-        rule: "Inputs of 0-6 records: a 'PKGNAME=' line (value empty, with '=' inside, padded, without '-'; optional leading blanks) followed by 0-9 lines over the 15 known keys (scalars with values incl. empty, 'a=b', padded, non-ASCII; PKG_LOCATION from valid spellings; ALL_DEPENDS / SCAN_DEPENDS / MULTI_VERSION with 0-5 items separated by blanks or tabs), repeated keys, the same key with different values or missing in neighbouring records, ignored lines (blank, unknown key, no '=', near-miss keys). The reader delivers generated chunk sizes through a 32-byte BufReader, with Interrupted at generated points. Fault stream: a block before the first 'PKGNAME=', one invalid ALL_DEPENDS item (8 kinds, first or last), an invalid PKG_LOCATION, or - enumerated inside the case - a hard I/O error at every read call of the sequence. Oracle: M-scan (segmentation on 'PKGNAME=', first '=', trimmed, last wins, whitespace-split lists): record count and order, pkgname == PkgName::new(v), every public field of every record; any fault -> Err as a whole, never a partial list. Non-trivial = >= 2 records whose neighbours differ in a key's value or presence, or a fault. Distinct = distinct inputs (+ one per injected error position).",
+        rule: "Inputs of 0-6 records: a 'PKGNAME=' line (value empty, with '=' inside, padded, without '-'; optional leading blanks) followed by 0-9 lines over the 15 known keys (scalars with values incl. empty, 'a=b', padded, non-ASCII; PKG_LOCATION from valid spellings; ALL_DEPENDS / SCAN_DEPENDS / MULTI_VERSION with 0-5 items separated by blanks or tabs), repeated keys, the same key with different values or missing in neighbouring records, ignored lines (blank, unknown key, no '=', near-miss keys). The reader delivers generated chunk sizes through a 32-byte BufReader, with Interrupted at generated points. Fault stream: a block before the first 'PKGNAME=', one invalid ALL_DEPENDS item (8 kinds, first or last), an invalid PKG_LOCATION, or - enumerated inside the case - a hard I/O error at every read call of the sequence. Oracle: M-scan (segmentation on 'PKGNAME=', first '=', trimmed, last wins, whitespace-split lists): record count and order, pkgname == PkgName::new(v), every public field of every record; any fault -> Err as a whole, never a partial list. Non-trivial = >= 2 records whose neighbours differ in a key's value or presence, or a fault. Distinct = distinct inputs (+ one per injected error position). Generators also draw, at low weight, tokens from the source-literal dictionary (every string / byte / character literal of the library's own source, collected at build time and filtered by this domain's character class) (as scalar values); injected I/O errors cycle through six error kinds.",
         assumptions: vec![
             "dependency items and locations come from fixed valid / invalid pools (their validity is the subject of C19)",
             "lines whose key is 'PKGNAME' but do not start with 'PKGNAME=' after trimming (e.g. 'PKGNAME =x') are outside the domain",
